@@ -613,6 +613,13 @@ def r8_shared_tokenizer(ctx):
             yield o
 
 
+def r11_no_state_between_documents(ctx):
+    """a conformant document is accepted whatever was validated before in the process: C15.R9 / C18.R2 (shared)"""
+    from . import c15
+    for o in c15.validator_keeps_no_state(ctx):
+        yield o
+
+
 RULES = [
     Rule('C02.R1', 'every index entry is selectable: whitelist, the map\'s own envelope code lists, BHT tuple', r1_selectable, floor=90),
     Rule('C02.R2', 'literal map paths in code resolve in every map they are applied to', r2_literal_paths, floor=22),
@@ -621,6 +628,7 @@ RULES = [
     Rule('C02.R5', 'walker counting/ordering atoms: limits, resets, pending-missing conditions, position filter', r5_walker_wiring, floor=12),
     Rule('C02.R6', 'shared with C13.R1/R3/R4: the recognisers accept every value of the X12 value languages', r6_shared_recognisers, floor=33),
     Rule('C02.R7', 'the map-switch key (BHT02) is never carried from one transaction set to the next', r7_no_stale_map_key, floor=1),
+    Rule('C02.R11', 'shared with C18.R2: the validating modules keep no module/class-level state and cache nothing across calls', r11_no_state_between_documents, floor=8),
     Rule('C02.R10', '_is_loop_match: a wrapper loop matches iff any child loop matches (constant propagation, recursive)', r10_wrapper_loops, floor=1),
     Rule('C02.R9', 'shared with C16.R13: same-position segments get distinct counter paths (loader suffix code interpreted over the maps)', r9_shared_path_suffix, floor=100),
     Rule('C02.R8', 'shared with C01.R3/R5: no segment is damaged at a buffer boundary', r8_shared_tokenizer, floor=6),
